@@ -163,3 +163,17 @@ func (db *DB) VerifForceFlush(table string) {
 		t.forceFlush()
 	}
 }
+
+// VerifReady reports whether the named table's row store has installed its first
+// memstore (processInserts does that asynchronously after CreateTable returns; a
+// query issued before that dereferences a nil memstore).
+func (db *DB) VerifReady(table string) bool {
+	t := db.getTable(table)
+	if t == nil || t.rowStore == nil {
+		return false
+	}
+	t.rowStore.mx.RLock()
+	ready := t.rowStore.memStore != nil
+	t.rowStore.mx.RUnlock()
+	return ready
+}
